@@ -214,10 +214,10 @@ func vC13ApplyGuarded(doc *Document, op int) (isRead bool, name string, crashed 
 	return
 }
 
-// VerifC13_History: every history of cs%2+1 operations (13 edits, 7 reads) on a small family; after
+// VerifC13_History: every history of cs%3+1 operations (13 edits, 7 reads) on a small family; after
 // every step each view equals the same view on a fresh decode of the current text; reads change nothing.
 func VerifC13_History(cs int) {
-	k := cs%2 + 1
+	k := cs%3 + 1
 	doc, err := NewDocumentFromString(vC13Gedcom)
 	VsAssume(err == nil)
 	vWarmViews(doc)
